@@ -402,6 +402,10 @@ func (e *Env) evalIdent(name string) (*Val, error) {
 		ne.expanding = e.expanding
 		return ne.eval(le)
 	}
+	if name == "$nowcalls" {
+		// how often the clock has been read so far (ghost)
+		return scalar(c.get(e.st, "G:$nowcalls", SInt), nil), nil
+	}
 	if name == "$now" {
 		// the instant returned by the latest time.Now() (ghost)
 		return scalar(c.get(e.st, "G:$now", SInt), nil), nil
